@@ -4,7 +4,7 @@
 From Coq Require Import List NArith Bool Arith Sorted.
 From Coq Require Import Strings.Byte.
 Require Import BS.Bytes BS.Common BS.Api BS.Layout BS.Format BS.FormatFacts BS.Spec BS.SpecStep.
-Require Import BS.FS BS.FSFacts BS.Meta BS.MetaFacts BS.Header BS.Reader BS.ReaderFacts BS.Index BS.Data BS.DataFacts BS.Seek BS.Series BS.SeriesFacts BS.TotalFacts.
+Require Import BS.FS BS.FSFacts BS.Meta BS.MetaFacts BS.Header BS.Reader BS.ReaderFacts BS.Index BS.Data BS.DataFacts BS.Seek BS.Series BS.SeriesFacts BS.TotalFacts BS.OpenFacts BS.HistoryFacts.
 Import ListNotations.
 
 (* (I) under the representation invariant the accessors report the contents *)
@@ -25,3 +25,19 @@ Theorem C12_last_line : forall fs sr p hdr ihdr l, RepH fs sr p hdr ihdr l ->
   series_last_line sr fs = (fs, match last_opt l with Some x => Ok x | None => Err ENoData end).
 Proof. exact BS.TotalFacts.last_line_ok. Qed.
 Print Assumptions C12_last_line.
+
+(* (I refines S) over EVERY history (appends, reads, reopens, crashes + recovery: props/C05.v) the accessors report exactly
+   the lines Layer S expects *)
+Theorem C12_every_history : forall p name uhdr,
+  (len (params_to_text BSgen.Consts.version (N.of_nat p) ++ uhdr) <= 65535)%N -> (N.of_nat p < 2^64)%N ->
+  forall fs cb0 ops,
+  fs_mem fs (name ++ ext_data) = false -> fs_mem fs (name ++ ext_index) = false -> hvalid_all p name uhdr [] ops ->
+  exists fs0 s0 st', series_new name (N.of_nat p) uhdr [] cb0 fs = (fs0, Ok s0)
+    /\ hrun name (fs0, s0) ops = Some st'
+    /\ let l := fold_left (hspec p) ops [] in
+       data_len_lines (s_data (snd st')) = Ok (len l)
+       /\ s_range (snd st') = first_last l
+       /\ d_p (s_data (snd st')) = p
+       /\ series_last_line (snd st') (fst st') = (fst st', match last_opt l with Some x => Ok x | None => Err ENoData end).
+Proof. exact history_accessors. Qed.
+Print Assumptions C12_every_history.
